@@ -991,6 +991,18 @@ func (rs *RelationService) Insert(tableName string, cols []string, vals []interf
 
 // todo combine with update page table code?
 func (rs *RelationService) Update(tableName string, rowID uint32, cols []string, updateSrc []interface{}) (WALBatch, error) {
+	return rs.update(tableName, rowID, cols, updateSrc, false)
+}
+
+// CheckUpdate reports, without changing anything, the error Update would return
+// because of the table name, the column list or the new contents of the row. An
+// UPDATE checks every matching row with it before it changes the first one.
+func (rs *RelationService) CheckUpdate(tableName string, rowID uint32, cols []string, updateSrc []interface{}) error {
+	_, err := rs.update(tableName, rowID, cols, updateSrc, true)
+	return err
+}
+
+func (rs *RelationService) update(tableName string, rowID uint32, cols []string, updateSrc []interface{}, checkOnly bool) (WALBatch, error) {
 	var walLogs WALBatch
 
 	if isSysTable(tableName) {
@@ -1039,6 +1051,10 @@ func (rs *RelationService) Update(tableName string, rowID uint32, cols []string,
 		buf, err := tuple.Encode()
 		if err != nil {
 			return StopScanning, err
+		}
+
+		if checkOnly {
+			return KeepScanning, checkRowSizeLimit(buf.Bytes())
 		}
 
 		if err := cell.pg.updateCell(cell.key, buf.Bytes()); err != nil {
